@@ -762,7 +762,7 @@ func (g *vfGW) apply(evFull string) {
 		}
 		g.fake(arg(1)).send(vfPruneRPC(arg(2), bo))
 	case "prunepx":
-		// PRUNE with peer exchange: y valid record, z record of another peer, w garbage, v no record, u record sealed for a wrong domain
+		// PRUNE with peer exchange: y valid record, z record of another peer, w garbage, v no record, u record sealed for a wrong domain, s valid envelope of another record type
 		g.fake(arg(1)).send(vfPruneRPC(arg(2), 0, vfPXEntries()...))
 	case "pub":
 		g.fake(arg(1)).send(vfPubRPC(g.pbMsg(arg(2))))
@@ -1314,6 +1314,19 @@ func (r *vfBogusRecord) Codec() []byte                  { return []byte{0x03, 0x
 func (r *vfBogusRecord) MarshalRecord() ([]byte, error) { return r.b, nil }
 func (r *vfBogusRecord) UnmarshalRecord(b []byte) error { r.b = b; return nil }
 
+// vfForeignRecord: a record type that IS registered with core/record (like the relay reservation voucher every libp2p
+// host registers next to the peer record) and is sealed under the PEER RECORD signature domain: the domain is only a
+// string mixed into the signature and the key is the sender's own, so such an envelope passes ConsumeEnvelope for
+// the peer-record domain and yields a record that is not a *peer.PeerRecord.
+type vfForeignRecord struct{ b []byte }
+
+func (r *vfForeignRecord) Domain() string                 { return peer.PeerRecordEnvelopeDomain }
+func (r *vfForeignRecord) Codec() []byte                  { return []byte{0x03, 0x98} }
+func (r *vfForeignRecord) MarshalRecord() ([]byte, error) { return r.b, nil }
+func (r *vfForeignRecord) UnmarshalRecord(b []byte) error { r.b = b; return nil }
+
+func init() { record.RegisterType(&vfForeignRecord{}) }
+
 var vfPXCache []*pb.PeerInfo
 
 func vfPXEntries() []*pb.PeerInfo {
@@ -1337,12 +1350,18 @@ func vfPXEntries() []*pb.PeerInfo {
 		panic(err)
 	}
 	bogus, _ := bogusEnv.Marshal()
+	foreignEnv, err := record.Seal(&vfForeignRecord{b: []byte("not a peer record")}, vfIdentity("s").priv)
+	if err != nil {
+		panic(err)
+	}
+	foreign, _ := foreignEnv.Marshal()
 	vfPXCache = []*pb.PeerInfo{
 		{PeerID: []byte(vfIdentity("y").id), SignedPeerRecord: seal("y", "y")},
 		{PeerID: []byte(vfIdentity("z").id), SignedPeerRecord: seal("y", "y")},
 		{PeerID: []byte(vfIdentity("w").id), SignedPeerRecord: []byte("garbage-not-an-envelope")},
 		{PeerID: []byte(vfIdentity("v").id)},
 		{PeerID: []byte(vfIdentity("u").id), SignedPeerRecord: bogus},
+		{PeerID: []byte(vfIdentity("s").id), SignedPeerRecord: foreign}, // valid envelope for the peer-record domain, payload of another registered type
 	}
 	return vfPXCache
 }
